@@ -161,6 +161,22 @@ def header_derivation(ctx, P):
         fp = b2.calls(r'PacketHeader::from_parts$')
         ok2 = bool(fp) and all(has_origin(b2.operand_origins(t['args'][2]), r'call:ser::Serialize::write_len$') for i, t in fp)
         ctx.check(P + ':S05-2:writer-rederives-header', 'origin', 'to_writer_with_header builds the header from Fixed(write_len())', ok2, function=b2.path)
+        # the header as it was read is written back ONLY for an indeterminate length: a packet read from partial-body chunks holds the
+        # complete body, so its first-chunk Partial header must not be reused
+        dom2 = b2.dominators()
+        stale = []
+        for i, t in b2.calls(r'ser::Serialize::to_writer$'):
+            if 'PacketHeader' not in (t['f'].get('selfty') or '') + (t['f'].get('res') or ''):
+                continue
+            og = b2.operand_origins(t['args'][0])
+            if has_origin(og, r'call:.*PacketHeader::from_parts$'):
+                continue
+            ac = arm_context(b2, i, dom2)
+            none_arm = any(a == 'Option' and vs == ['None'] for a, vs in ac) or any(a == 'PacketLength' and vs == ['Indeterminate'] for a, vs in ac)
+            if not none_arm:
+                stale.append(i)
+        ctx.check(P + ':S05-2:stored-header-only-for-indeterminate', 'R-dom', 'to_writer_with_header writes the stored header back only when its length is indeterminate (maybe_len() == None)',
+                  not stale and bool(fp), function=b2.path, site=site(b2, stale[0]) if stale else None)
 
 
 def mutators(ctx, P):
